@@ -345,33 +345,31 @@ def intScript (sh rq : Regs) : Except CfgErr (List W) :=
 def mapped12 (rq : Regs) (m : Byte) : Bool := has (rq 0x21) m || has (rq 0x22) m
 def mapped3 (rq : Regs) (m1 m2 : Byte) : Bool := has (rq 0x23) m1 || has (rq 0x23) m2
 
+/-- `if cond { tmp = tmp.with_x(false) }` -/
+def clrIf (t : Byte) (p : Bool × Byte) : Byte := if p.1 then clr t p.2 else t
+
 /-- temporary INT_CONFIG0 of the pin-mapping builder -/
 def pinTmp0 (sh rq : Regs) : Byte :=
   let c := sh 0x1F
   if sh 0x24 ≠ rq 0x24 then c ^^^ c
   else
-    let t := c
-    let t := if has c ic0_DRDY && mapped12 rq map_DRDY then clr t ic0_DRDY else t
-    let t := if has c ic0_FWM && mapped12 rq map_FWM then clr t ic0_FWM else t
-    let t := if has c ic0_FFULL && mapped12 rq map_FFULL then clr t ic0_FFULL else t
-    let t := if has c ic0_GEN1 && mapped12 rq map_GEN1 then clr t ic0_GEN1 else t
-    let t := if has c ic0_GEN2 && mapped12 rq map_GEN2 then clr t ic0_GEN2 else t
-    let t := if has c ic0_ORIENTCH && mapped12 rq map_ORIENTCH then clr t ic0_ORIENTCH else t
-    t
+    [ (has c ic0_DRDY && mapped12 rq map_DRDY, ic0_DRDY),
+      (has c ic0_FWM && mapped12 rq map_FWM, ic0_FWM),
+      (has c ic0_FFULL && mapped12 rq map_FFULL, ic0_FFULL),
+      (has c ic0_GEN1 && mapped12 rq map_GEN1, ic0_GEN1),
+      (has c ic0_GEN2 && mapped12 rq map_GEN2, ic0_GEN2),
+      (has c ic0_ORIENTCH && mapped12 rq map_ORIENTCH, ic0_ORIENTCH) ].foldl clrIf c
 def pinTmp1 (sh rq : Regs) : Byte :=
   let c := sh 0x20
   if sh 0x24 ≠ rq 0x24 then c ^^^ c
   else
-    let t := c
-    let t := if has c ic1_ACTCH && mapped3 rq m12_ACTCH1 m12_ACTCH2 then clr t ic1_ACTCH else t
-    let t := if (has c ic1_STAP || has c ic1_DTAP) && mapped3 rq m12_TAP1 m12_TAP2
-             then clr (clr t ic1_DTAP) ic1_STAP else t
-    let t := if has c ic1_STEP && mapped3 rq m12_STEP1 m12_STEP2 then clr t ic1_STEP else t
-    t
+    [ (has c ic1_ACTCH && mapped3 rq m12_ACTCH1 m12_ACTCH2, ic1_ACTCH),
+      ((has c ic1_STAP || has c ic1_DTAP) && mapped3 rq m12_TAP1 m12_TAP2, uni ic1_DTAP ic1_STAP),
+      (has c ic1_STEP && mapped3 rq m12_STEP1 m12_STEP2, ic1_STEP) ].foldl clrIf c
 def pinTmpW (sh rq : Regs) : Byte :=
   let c := sh 0x2F
   if sh 0x24 ≠ rq 0x24 then c
-  else if has c wk0_AXES && mapped12 rq map_WKUP then clr (clr (clr c wk0_X) wk0_Y) wk0_Z else c
+  else clrIf c (has c wk0_AXES && mapped12 rq map_WKUP, wk0_AXES)
 
 def pinScript (sh rq : Regs) : Except CfgErr (List W) :=
   let (c0, c1, cw) := (sh 0x1F, sh 0x20, sh 0x2F)
